@@ -72,6 +72,10 @@ Forms == {
   [n |-> "assoc_tb", slots |-> 0, subs |-> {"circle%reset"}],         \* associate (obj => c) / call obj%reset() / end associate
   [n |-> "assoc_shadow", slots |-> 0, subs |-> {"logger%reset"}],     \* nested associate re-using the name: the inner selector wins
   [n |-> "assoc_inner_outer", slots |-> 0, subs |-> {"logger%reset", "circle%area"}],   \* ... and the outer one again after END ASSOCIATE
+  [n |-> "assoc_elem", slots |-> 0, subs |-> {"circle%reset"}],       \* associate (obj => cs(2)) / call obj%reset()  -- selector with a subscript
+  [n |-> "assoc_section", slots |-> 0, subs |-> {}],                  \* associate (row => sinx(2:3)) / x = row(1)   -- an array section is no call
+  [n |-> "assoc_funcsel", slots |-> 1, subs |-> {}],                  \* associate (z => E) / x = z + z              -- calls inside the selector only
+  [n |-> "extern", slots |-> 0, subs |-> {"extf"}],                   \* real :: extf / external extf / x = extf(1.0) -- pre-F90 declaration of an external function
   [n |-> "return", slots |-> 0, subs |-> {}]}            \* no call at all
 
 Init == form = << >> /\ args = <<>> /\ phase = "init" /\ out = {}
@@ -91,7 +95,7 @@ Emit == /\ phase = "chosen" /\ phase' = "done" /\ out' = CallSet /\ UNCHANGED <<
 Next == Choose \/ Emit
 Spec == Init /\ [][Next]_vars
 
-IntrinsicsAndVariablesNeverCalls == phase = "chosen" => CallSet \subseteq {"fa", "fb", "size_of", "p", "iffy", "circle%reset", "circle%area", "logger%reset"}
+IntrinsicsAndVariablesNeverCalls == phase = "chosen" => CallSet \subseteq {"fa", "fb", "size_of", "p", "iffy", "circle%reset", "circle%area", "logger%reset", "extf"}
 LiteralsNeverCalls == phase = "chosen" =>
    ((form.n = "assign" /\ args[1] = Leaf("'call fa(x)'")) => CallSet = {})
 NeverNested == ~(phase = "chosen" /\ Cardinality(CallSet) >= 3)     \* vacuity guard
